@@ -202,7 +202,7 @@ func cmdDet(fs *flag.FlagSet) {
 				for r := 0; r < st.rounds/2+1; r++ {
 					for _, q := range keys {
 						d := decoder.NewDecoder(env.R)
-						d.SetContext(decoder.NewDecoderContext())
+						d.SetContext(newDecCtx())
 						emit("fresh-decoder", q, env.RunOn(wt, d, q))
 					}
 				}
